@@ -183,6 +183,9 @@ CORPUS += [
 G_ = "rl4co/envs/graph/"
 CORPUS += [
     # ---------------------------------------------------------------- C03
+    V("C03", "mdcpdp-last-return-charged-in-open-mode", "rl4co/envs/routing/mdcpdp/env.py", '        if self.problem_mode == "close":\n            last_leg', '        if True:\n            last_leg', 'C03.d'),
+    V("C03", "mdcpdp-last-return-only-in-open-mode", "rl4co/envs/routing/mdcpdp/env.py", '        if self.problem_mode == "close":\n            last_leg', '        if self.problem_mode == "open":\n            last_leg', 'C03.d'),
+    V("C03", "eq-mdcpdp-last-return-not-open", "rl4co/envs/routing/mdcpdp/env.py", '        if self.problem_mode == "close":\n            last_leg', '        if self.problem_mode != "open":\n            last_leg', None),
     V("C03", "mdcpdp-last-return-dropped", "rl4co/envs/routing/mdcpdp/env.py", '            current_length = current_length.scatter_add(\n                -1, td["current_depot"], last_leg.unsqueeze(-1)\n            )\n', '            pass\n', 'C03.d'),
     V("C03", "mcp-every-item-covered", "rl4co/envs/graph/mcp/env.py", 'chosen_items = (chosen_items > 0).float()', 'chosen_items = (chosen_items >= 0).float()', 'C03.f'),
     V("C03", "mcp-covered-twice-only", "rl4co/envs/graph/mcp/env.py", 'chosen_items = (chosen_items > 0).float()', 'chosen_items = (chosen_items > 1).float()', 'C03.f'),
@@ -308,6 +311,8 @@ CORPUS += [
 FJ_ = S_ + "fjsp/env.py"
 CORPUS += [
     # ---------------------------------------------------------------- C07
+    V("C07", "ffsp-stage-index-as-machine", "rl4co/envs/scheduling/ffsp/env.py", 'new_machine_idx = self.tables.get_machine_index(idx, new_sub_time_idx)', 'new_machine_idx = self.tables.get_stage_machine_index(idx, new_sub_time_idx)', 'C07.h'),
+    V("C07", "ffsp-machine-index-as-stage-machine", "rl4co/envs/scheduling/ffsp/env.py", 'self.tables.get_stage_machine_index(batch_idx, sub_time_idx)', 'self.tables.get_machine_index(batch_idx, sub_time_idx)', 'C07.h'),
     V("C07", "fjsp-busy-until-wrong-proc-time", FJ_, 'td["busy_until"][batch_idx, selected_machine] = td["time"] + proc_time_of_action', 'td["busy_until"][batch_idx, selected_machine] = td["time"] + td["proc_times"][batch_idx, selected_machine].max(-1).values', "C07.b"),
     V("C07", "fjsp-finish-on-wrong-index", FJ_, 'td["finish_times"][batch_idx, selected_op] = td["time"] + proc_time_of_action', 'td["finish_times"][batch_idx, selected_job] = td["time"] + proc_time_of_action', "C07.b"),
     V("C07", "fjsp-proc-time-swapped-index", FJ_, 'proc_time_of_action = td["proc_times"][batch_idx, selected_machine, selected_op]', 'proc_time_of_action = td["proc_times"][batch_idx, selected_op, selected_machine]', "C07.b"),
